@@ -883,9 +883,13 @@ def distribute(x1, x2, spacing, r, rotate):
     act_num_col = int(dx // spacing)
     act_space = dx / act_num_col
     tolerance = 1e-8
-    while (
-        sqrt((current_x[0] - x2[0]) * (current_x[0] - x2[0]) + (current_x[1] - x2[1]) * (current_x[1] - x2[1]))
-    ) >= tolerance:
+    # x2 is act_num_col steps away; counting the steps (instead of waiting to land within the tolerance of x2)
+    # keeps the walk finite when round-off in the row/outline intersections puts x2 slightly off the row direction
+    for _ in range(act_num_col):
+        if (
+            sqrt((current_x[0] - x2[0]) * (current_x[0] - x2[0]) + (current_x[1] - x2[1]) * (current_x[1] - x2[1]))
+        ) < tolerance:
+            break
         if len(r) == 0 or not (r[len(r) - 1][0] == current_x[0] and r[len(r) - 1][1] == current_x[1]):
             r[len(r)] = [current_x[0], current_x[1]]
         current_x[0] += act_space * cos(rotate)
